@@ -916,8 +916,9 @@ func TestVerifC05Watch(t *testing.T) {
 							break
 						}
 					}
-				case "StaleTouch", "SoftDisconnect":
-					// see harness/lnwallet/c05_close_test.go: not exercised by this executor
+				case "StaleTouch", "SoftDisconnect", "RecvBadRev":
+					// see harness/lnwallet/channel_exec_test.go: events the model leaves
+					// without effect; not exercised by this executor
 				case "LiveRefresh":
 					err = me.lc.State().Refresh()
 				case "SendReest":
